@@ -60,7 +60,7 @@ fn valid_traffic(rng: &mut Rng, towards_server: bool) -> Vec<Vec<u8>> {
 }
 
 fn fuzz_text(rng: &mut Rng) -> Vec<u8> {
-    match rng.below(9) {
+    match rng.below(11) {
         0 => rng.bytes_in(0, 200), // arbitrary, mostly invalid UTF-8
         1 => b"v=999999999999999999999\npadding-md5=\nclient=".to_vec(),
         2 => b"v=-1\nv=2\nv=\n=\n==\n\n\n".to_vec(),
@@ -78,6 +78,16 @@ fn fuzz_text(rng: &mut Rng) -> Vec<u8> {
             s.text().into_bytes()
         }
         7 => b"stop=2\n0=4294967295-4294967295\n1=2147483648-2147483648,4294967296-4294967301".to_vec(),
+        9 => {
+            // every line: descending ranges, ranges of one, check marks in odd places
+            let mut s = String::from("stop=14");
+            for k in 0..14 {
+                let a = rng.range(1, 1500);
+                let b = rng.range(1, 1500);
+                s.push_str(&format!("\n{k}={}-{},c,{}-{},c,c,{}-{}", a.max(b), a.min(b), a, a, b.max(a) + 3, b.min(a)));
+            }
+            s.into_bytes()
+        }
         _ => "stop=3\n1=１０-２０\n2=١-٢\nv=２".as_bytes().to_vec(),
     }
 }
@@ -239,7 +249,10 @@ async fn run_async(h: Hostile) -> Vec<(String, String)> {
         peer = rv.peer;
     } else {
         let cv = engine::client_vs_raw(PipeCfg::plain(), pc, engine::default_padding(), None).await;
-        for i in 0..3u8 {
+        // scheme / settings fuzz: open a single stream first so that the writes that follow the hostile
+        // input are packets 2, 3, ... and walk through every line of a pushed scheme
+        let opens = if h.class == "settings_or_scheme_fuzz" { 1u8 } else { 3u8 };
+        for i in 0..opens {
             if let Ok(Ok((st, _rx))) = tokio::time::timeout(Duration::from_secs(D), engine::open_like_client(&cv.client, Bytes::from(vec![i; 7]))).await {
                 harness_tasks.push(tokio::spawn(async move {
                     let mut buf = vec![0u8; 4096];
@@ -263,8 +276,9 @@ async fn run_async(h: Hostile) -> Vec<(String, String)> {
     let _ = peer.w.write_all(&h.bytes).await;
     tokio::time::sleep(Duration::from_secs(1)).await;
     // the victim keeps being used by its owner: none of these calls may block beyond D
-    for k in 0..3u32 {
-        let r = tokio::time::timeout(Duration::from_secs(D), victim.write_data_frame(1, Bytes::from(vec![k as u8; 50 + 500 * k as usize]))).await;
+    let owner_writes = if h.class == "settings_or_scheme_fuzz" { 12u32 } else { 3u32 };
+    for k in 0..owner_writes {
+        let r = tokio::time::timeout(Duration::from_secs(D), victim.write_data_frame(1, Bytes::from(vec![k as u8; 50 + 500 * (k as usize % 4)]))).await;
         if r.is_err() {
             problems.push(("owner_write_blocked".into(), format!("write_data_frame on the session that received the hostile input is still pending after {D} virtual seconds")));
             break;
